@@ -37,10 +37,16 @@ type EnvCfg struct {
 	ValidityMs int      `json:"validity_ms"`
 	Insecure   bool     `json:"insecure,omitempty"`
 	Domains    []string `json:"mitm_domains,omitempty"` // nil = no filter
+	// Upstream: "" = "direct" | "http" | "https" | "socks5": the scripted upstream proxy of the fixture (history cases)
+	Upstream string `json:"upstream,omitempty"`
 }
 
 func (c EnvCfg) key() string {
-	return fmt.Sprintf("%d|%d|%d|%v|%s", c.CacheSize, c.CacheTTLms, c.ValidityMs, c.Insecure, strings.Join(c.Domains, "\x00"))
+	k := fmt.Sprintf("%d|%d|%d|%v|%s", c.CacheSize, c.CacheTTLms, c.ValidityMs, c.Insecure, strings.Join(c.Domains, "\x00"))
+	if c.Upstream != "" && c.Upstream != "direct" {
+		k += "|via-" + c.Upstream
+	}
+	return k
 }
 
 // Target is a CONNECT authority built from its parts, so that the name the client asks for is known
@@ -144,6 +150,7 @@ type fixture struct {
 	origins  map[string]*origin   // by via/kind
 	plain    *rig.Peer
 	routes   []forwarder.HostPortPair
+	hist     *histFixture // upstream proxies, tunnel targets and origins of the history cases (hist.go)
 }
 
 var originVias = []string{"dns", "ip4", "ip6"}
@@ -310,6 +317,9 @@ func newFixture(ctx *core.Ctx, spellings []string) (*fixture, error) {
 			f.routes = append(f.routes, rig.Route(sp, "", p.Addr))
 		}
 	}
+	if err := f.addHistFixture(); err != nil {
+		return nil, err
+	}
 	return f, nil
 }
 
@@ -319,6 +329,9 @@ func (f *fixture) close() {
 	}
 	if f.plain != nil {
 		f.plain.Close()
+	}
+	if f.hist != nil {
+		f.hist.close()
 	}
 }
 
@@ -404,6 +417,9 @@ func startEnv(f *fixture, c EnvCfg) (*env, error) {
 			if matcher != nil {
 				cfg.MITMDomains = matcher
 			}
+			if u := upstreamURL(c.Upstream); u != "" {
+				cfg.UpstreamProxy = rig.MustURL(u)
+			}
 		},
 	})
 	if err != nil {
@@ -465,13 +481,18 @@ type hsResult struct {
 // handshake: CONNECT authority, then a TLS client handshake that accepts anything
 // (InsecureSkipVerify); verification is done afterwards by the harness itself.
 func handshake(proxyAddr, authority, sni string, keep bool) *hsResult {
+	return handshakeH(proxyAddr, authority, sni, "", keep)
+}
+
+// handshakeH: extra = further header lines of the CONNECT request (each ending in CRLF).
+func handshakeH(proxyAddr, authority, sni, extra string, keep bool) *hsResult {
 	r := &hsResult{}
 	c, err := rig.Dial(proxyAddr)
 	if err != nil {
 		r.Err = "dial: " + err.Error()
 		return r
 	}
-	c.Send([]byte("CONNECT "+authority+" HTTP/1.1\r\nHost: "+authority+"\r\n\r\n"), nil)
+	c.Send([]byte("CONNECT "+authority+" HTTP/1.1\r\nHost: "+authority+"\r\n"+extra+"\r\n"), nil)
 	res, err := c.ReadResponse("CONNECT", 10*time.Second)
 	if err != nil {
 		c.Close()
